@@ -23,6 +23,7 @@ EXPLANATION = (
     'the claim-success edge, the root table is replaced only by CAS (a superfluous array is freed), create_local() is called only '
     'when no level of the table holds the thread\'s key, plain stores to my_root / my_count occur only in the non-concurrent '
     'functions.  One element per thread over all interleavings and combine/iteration coverage are NOT decided.')
+EXPLANATION += ' Added after the seeded-change rounds: ' + "D1 also: a caller leaves do_collaborative_call_once only as the winner or after it observed the state done; D5 also: a new ETS hash array is sized from the caller's own ticket; no user operation runs between appending an element to my_locals and marking it built (violated on the pinned tree: known findings)."
 ASSUMPTIONS = ['instantiations of drivers/algorithms.cpp (once flag with and without arguments, ETS with both key policies)']
 ND = ['one element per thread over all interleavings of first accesses and table growth', 'combine / iteration coverage']
 
